@@ -604,3 +604,135 @@ def h_template(c):
     return {"keys": t["keys"], "entries": {k: v for k, v in t["entries"].items() if k not in ("beta", "shocks")},
             "shocks": t["entries"].get("shocks", {}) or {},
             "beta_is_nan": bool(np.isnan(np.asarray(template["beta"])))}
+
+
+# ---- C09 ---------------------------------------------------------------------------------
+def _leaves_equal(a, b):
+    if isinstance(a, dict):
+        return isinstance(b, dict) and list(a) == list(b) and all(_leaves_equal(a[k], b[k]) for k in a)
+    x, y = np.asarray(a), np.asarray(b)
+    return x.shape == y.shape and x.dtype == y.dtype and bool(np.array_equal(x, y, equal_nan=True)) and type(a) is type(b)
+
+
+def _frame_wire(df):
+    out = {}
+    for col in df.columns:
+        vals = np.asarray(df[col], dtype=float)
+        out[col] = [None if math.isnan(x) else to_wire(x) for x in vals.tolist()]
+    return {"columns": out, "index": [list(map(int, ix)) for ix in df.index.tolist()]}
+
+
+def h_call_sequence(c):
+    """One generated solve function and one generated simulate function are called repeatedly with
+    interleaved arguments; every result is returned together with the result of freshly built
+    functions for the same arguments, and the model / params objects are compared before/after."""
+    import copy
+    from lcm.entry_point import get_lcm_function
+    _MODEL_CACHE.clear()
+    model = _build_model(c)
+    fkeys_before = list(model.functions)
+    fobjs_before = [id(v) for v in model.functions.values()]
+    solve, template = get_lcm_function(model, targets="solve")
+    sim, template2 = get_lcm_function(model, targets="solve_and_simulate")
+    results, fresh, notes = [], [], []
+    if _template_wire(template) != _template_wire(template2):
+        notes.append("two get_lcm_function calls on the same model return different templates")
+    for call in c["calls"]:
+        cc = {**c, "params": call["params"]}
+        params = _build_params(cc, template, call.get("leaf", "jax"))
+        snapshot = copy.deepcopy(params)
+        if call["kind"] == "solve":
+            r = [_val_wire_arr(v) for v in solve(params)]
+            f2, _ = get_lcm_function(model, targets="solve")
+            r2 = [_val_wire_arr(v) for v in f2(_build_params(cc, template, "jax"))]
+        else:
+            from lcm.grids import DiscreteGrid as _DG
+            init = {k: (jnp.asarray([int(fq(x)) for x in v]) if isinstance(model.states.get(k), _DG)
+                        else jnp.asarray([fq(x) for x in v], dtype=float)) for k, v in call["initial_states"]}
+            r = _frame_wire(sim(params, initial_states=init, seed=call["seed"]))
+            f2, _ = get_lcm_function(model, targets="solve_and_simulate")
+            r2 = _frame_wire(f2(_build_params(cc, template, "jax"), initial_states=init, seed=call["seed"]))
+        if not _leaves_equal(params, snapshot):
+            notes.append("params were modified by a call")
+        results.append(r)
+        fresh.append(r2)
+    if list(model.functions) != fkeys_before:
+        notes.append(f"model.functions keys changed: {fkeys_before} -> {list(model.functions)}")
+    elif [id(v) for v in model.functions.values()] != fobjs_before:
+        notes.append("model.functions values were replaced")
+    return {"results": results, "fresh": fresh, "notes": notes}
+
+
+# ---- C12 ---------------------------------------------------------------------------------
+def h_validate_model(c):
+    """raw spec: dict attributes may be None (not a dict), keys strings or other, values of the
+    required kind or not"""
+    from lcm import Model, LinspaceGrid
+    from lcm.exceptions import ModelInitilizationError
+    grid = LinspaceGrid(start=0.0, stop=1.0, n_points=2)
+
+    def build(d, good):
+        if d is None:
+            return ["not", "a", "dict"]
+        out = {}
+        for k, (key, ok) in enumerate(d):
+            kk = key if isinstance(key, str) else (k, "nonstring")
+            out[kk] = good if ok else 3.14
+        return out
+    try:
+        Model(n_periods=c["n_periods"], functions=build(c["functions"], (lambda: 0)),
+              choices=build(c["choices"], grid), states=build(c["states"], grid))
+    except ModelInitilizationError:
+        return {"outcome": "reject"}
+    except Exception as e:  # noqa: BLE001
+        return {"outcome": "other:" + type(e).__name__, "detail": str(e)[:200]}
+    return {"outcome": "accept"}
+
+
+def h_creation_checks(c):
+    """Model(...) must succeed; get_lcm_function must raise ValueError iff a creation rule is violated"""
+    from lcm.entry_point import get_lcm_function
+    try:
+        model = _build_model(c)
+    except Exception as e:  # noqa: BLE001
+        return {"outcome": "model_rejected:" + type(e).__name__, "detail": str(e)[:200]}
+    try:
+        get_lcm_function(model, targets="solve")
+    except ValueError as e:
+        return {"outcome": "reject", "detail": str(e)[:200]}
+    except Exception as e:  # noqa: BLE001
+        return {"outcome": "other:" + type(e).__name__, "detail": str(e)[:200]}
+    return {"outcome": "accept"}
+
+
+def h_run_accepted(c):
+    """an accepted specification must solve and simulate with template-following params"""
+    from lcm.entry_point import get_lcm_function
+    model = _build_model(c)
+    stage = "get_lcm_function(solve)"
+    try:
+        solve, template = get_lcm_function(model, targets="solve")
+        params = _build_params(c, template)
+        stage = "solve"
+        sol = solve(params)
+        stage = "get_lcm_function(simulate)"
+        sim, _ = get_lcm_function(model, targets="simulate")
+        from lcm.grids import DiscreteGrid as _DG
+        init = {k: (jnp.asarray([int(fq(x)) for x in v]) if isinstance(model.states.get(k), _DG)
+                    else jnp.asarray([fq(x) for x in v], dtype=float)) for k, v in c["initial_states"]}
+        stage = "simulate"
+        kw = {}
+        if c.get("additional_targets"):
+            kw["additional_targets"] = c["additional_targets"]
+        df = sim(params, initial_states=init, vf_arr_list=sol, **kw)
+        return {"outcome": "ran", "n_rows": int(len(df))}
+    except Exception as e:  # noqa: BLE001
+        return {"outcome": "raised", "stage": stage, "class": type(e).__name__, "detail": str(e)[:300]}
+
+
+def h_import_check(c):
+    import subprocess, sys, os
+    env = {k: v for k, v in os.environ.items()}
+    r = subprocess.run([sys.executable, "-c", "import lcm.entry_point, lcm.simulate, lcm.ndimage; print('ok')"],
+                       capture_output=True, text=True, env=env, cwd="/tmp")
+    return {"ok": r.returncode == 0 and "ok" in r.stdout, "stderr": r.stderr[-300:]}
